@@ -2,6 +2,7 @@
 
 import logging
 import io
+import re
 
 from .token import CToken
 from ..tools.handlexer import HandLexerBase
@@ -81,6 +82,38 @@ def continued_lines_filter(chunks):
 
     if backslash:
         yield backslash
+
+
+# A preprocessing number (C99 6.4.8) is classified as an integer constant
+# (C99 6.4.4.1, plus binary constants), a floating constant (C99 6.4.4.2) or
+# neither of the two.
+_int_suffix = r"(?:[uU](?:ll|LL|[lL])?|(?:ll|LL|[lL])[uU]?)?"
+integer_constant_re = re.compile(
+    r"(?:0[xX][0-9a-fA-F]+|0[bB][01]+|0[0-7]*|[1-9][0-9]*)" + _int_suffix + "$"
+)
+floating_constant_re = re.compile(
+    r"(?:(?:[0-9]*\.[0-9]+|[0-9]+\.)(?:[eE][+-]?[0-9]+)?"
+    r"|[0-9]+[eE][+-]?[0-9]+"
+    r"|0[xX](?:[0-9a-fA-F]*\.[0-9a-fA-F]+|[0-9a-fA-F]+\.?)[pP][+-]?[0-9]+"
+    r")[flFL]?$"
+)
+
+
+hex_e_sign_re = re.compile(r"0[xX][0-9a-fA-F]*[eE][+-]")
+
+
+def classify_number(text):
+    """Determine the token type of the given preprocessing number.
+
+    Returns 'NUMBER' for an integer constant, 'FLOAT' for a floating
+    constant and 'PPNUMBER' for a preprocessing number which is neither.
+    """
+    if integer_constant_re.match(text):
+        return "NUMBER"
+    elif floating_constant_re.match(text):
+        return "FLOAT"
+    else:
+        return "PPNUMBER"
 
 
 def lex_text(text, coptions):
@@ -178,7 +211,6 @@ class CLexer(HandLexerBase):
         elif char in self.lower_letters + self.upper_letters + "_":
             return self.lex_identifier
         elif char in self.numbers:
-            self.backup_char(char)
             return self.lex_number
         elif char in " \t":
             return self.lex_whitespace
@@ -307,7 +339,7 @@ class CLexer(HandLexerBase):
         elif char == ".":
             if self.accept(self.numbers):
                 # We got .[0-9]
-                return self.lex_float
+                return self.lex_number
             elif self.accept("."):
                 if self.accept("."):
                     self.emit("...")
@@ -332,61 +364,34 @@ class CLexer(HandLexerBase):
         return self.lex_c
 
     def lex_number(self):
-        """Lex a single numeric literal."""
-        if self.accept("0"):
-            # Octal, binary or hex!
-            if self.accept("xX"):
-                number_chars = self.hex_numbers
-                base = 16
-            elif self.accept("bB"):
-                number_chars = self.binary_numbers
-                base = 2
-            elif self.accept("."):
-                return self.lex_float()
-            else:
-                number_chars = self.octal_numbers
-                base = 8
-        else:
-            number_chars = self.numbers
-            base = 10
+        """Lex a preprocessing number.
 
-        # Accept a series of number characters:
-        self.accept_run(number_chars)
+        The first digit (or the dot and the first digit) has been taken
+        already. See C99 6.4.8:
 
-        if self.peek() == "+":
-            text = self.get_lexeme()
-            if text[-1] in "eE":
-                self.error("invalid suffix on integer constant")
+        pp-number: [.] digit ( digit | identifier-nondigit | e sign | E sign
+                              | p sign | P sign | . )*
 
-        if base == 10 and self.accept("."):
-            # For example 12.3
-            return self.lex_float()
-        elif base == 10 and self.accept("eEpP"):
-            # For example 12e7
-            return self.lex_float()
-        else:
-            # Accept some integer suffixes, such as 'L', or 'ull'
-            long_suffixes = 0
-            unsigned_suffixes = 0
-            while long_suffixes < 2 or unsigned_suffixes < 1:
-                if long_suffixes < 2 and self.accept("lL"):
-                    long_suffixes += 1
-                elif unsigned_suffixes < 1 and self.accept("uU"):
-                    unsigned_suffixes += 1
-                else:
-                    break
+        A preprocessing number is turned into an integer or floating
+        constant when it is valid as such. If not, it still is a single
+        preprocessing token, which can be stringified, glued or skipped.
+        """
+        pp_number_chars = (
+            self.lower_letters + self.upper_letters + self.numbers + "_."
+        )
+        while True:
+            if self.accept("eEpP"):
+                self.accept("+-")
+            elif not self.accept(pp_number_chars):
+                break
 
-            self.emit("NUMBER")
-            return self.lex_c
+        text = self.get_lexeme()
+        typ = classify_number(text)
+        if typ == "PPNUMBER" and hex_e_sign_re.match(text):
+            # For example 0xe+1, which is not 0xe + 1
+            self.error("invalid suffix on integer constant")
 
-    def lex_float(self):
-        """Lex floating point number from decimal dot onwards."""
-        self.accept_run(self.numbers)
-        if self.accept("eEpP"):
-            self.accept("+-")
-            self.accept_run(self.numbers)
-
-        self.emit("FLOAT")
+        self.emit(typ)
         return self.lex_c
 
     def lex_whitespace(self):
